@@ -99,15 +99,19 @@ def _bind(callee: Func, call: ast.Call, self_expr):
         if k.arg not in names or k.arg in binding:
             return None
         binding[k.arg] = k.value
+    def at_def_time(d):
+        # a default is evaluated once, when the function is defined: only a literal may be copied to the call site
+        return isinstance(d, ast.Constant) or (isinstance(d, ast.Tuple) and all(isinstance(x, ast.Constant) for x in d.elts))
+
     for i, n in enumerate(params):
         if n not in binding:
             di = i - (len(params) - len(defaults))
-            if di < 0:
+            if di < 0 or not at_def_time(defaults[di]):
                 return None
             binding[n] = defaults[di]
     for a, d in zip(callee.node.args.kwonlyargs, callee.node.args.kw_defaults):
         if a.arg not in binding:
-            if d is None:
+            if d is None or not at_def_time(d):
                 return None
             binding[a.arg] = d
     return binding
